@@ -64,7 +64,7 @@ Targets == { "/", "/a/b", "/a%2Fb", "/a%20b+c", "//double//slash", "/a/../b/./c"
 UAs == { <<>>,                                   \* no User-Agent header
          <<"">>, <<"kube-probe/">>, <<"kube-probe/1.26">>, <<"kube-probe">>, <<"Kube-Probe/1.26">>,
          <<" kube-probe/1.26">>, <<"curl/8 kube-probe/1.26">>, <<"kube-probe/1.26 suffix">>,
-         <<"kube-probe/1.0", "curl/8">>, <<"curl/8", "kube-probe/1.0">> }   \* two User-Agent lines (dont-care class)
+         <<"kube-probe/1.0", "curl/8">>, <<"curl/8", "kube-probe/1.0">> }   \* two User-Agent lines: decided by the first
 
 Protos    == {"h1", "h2"}
 ConnKinds == {"normal", "sni253", "tworec"}     \* tworec: ClientHello spanning two TLS records (JA3 and JA4 fail)
